@@ -238,8 +238,8 @@ def exPub : Nat → Prop := fun id => id = 1
 def exEnv (secret : List Byte) : Env :=
   { render := fun id _ => if id = 0 then some secret else if id = 1 then some [0x37] else none, hook := none }
 def exArgs : List Val :=
-  [.leaf 0 .str "string".toUTF8.toList none false false,
-   .safeW (.leaf 1 .sint "int".toUTF8.toList (some 7) false false)]
+  [.leaf 0 .str ([0x73, 0x74, 0x72, 0x69, 0x6E, 0x67] /- "string" -/ : List UInt8) none false false,
+   .safeW (.leaf 1 .sint ([0x69, 0x6E, 0x74] /- "int" -/ : List UInt8) (some 7) false false)]
 
 example : EnvRel exPub (exEnv [0x61, 0x62]) (exEnv [0x7A]) ∧ ArgsOk exPub exArgs ∧
     (exEnv [0x61, 0x62]).render 0 [] ≠ (exEnv [0x7A]).render 0 [] := by
